@@ -356,6 +356,33 @@ def analyze(ctx, want):
     # pinned regex-syntax ast (an external crate a /repo change cannot alter); `span` never carries meaning and
     # Literal.kind only records how the char was written.
     MEANING = {"ClassUnicode": {"negated", "kind"}, "ClassPerl": {"negated", "kind"}, "ClassBracketed": {"negated", "kind"}, "Literal": {"c"}}
+    def wrapper_prints_whole_node():
+        """Does `<ComparableAst as Display>::fmt` print a function of the whole wrapped node (`self.0`, no deeper projection)?
+        Then comparing the printed wrappers compares the whole nodes."""
+        dfs = [f for f in F.fns.values() if re.search(r"ComparableAst as std::fmt::Display>::fmt$", f.name)]
+        if len(dfs) != 1:
+            return False
+        exd, psd = run_fn(dfs[0], F, BaseModel())
+        rps = ret_paths(psd)
+        if not rps or exd.truncated or len(rps) != len(psd):
+            return False
+        node = ("field", ("sym", "self"), "0")
+        for q in rps:
+            sub = list(S.subterms(q.end[1]))
+            if node not in sub and not any(x[0] == "ref" and x[1][0] == "loc" and x[1][1] == ("sym", "self") and [st_[1] for st_ in x[1][2]] == ["0"] for x in sub):
+                return False
+            INJ = r"fmt::Formatter(::<.*?>)?::(write_fmt|write_str|pad)$|fmt::Arguments(::<.*?>)?::new\w*(::<.*>)?$|fmt::rt::Argument(::<.*?>)?::new_(display|debug)(::<.*>)?$|<impl str>::escape_(default|debug|unicode)$|fmt::(Display|Debug)>::fmt$"
+            for x in sub:
+                if x[0] == "app" and S.mentions(x, lambda y: y == node or (y[0] == "ref" and y[1][0] == "loc" and y[1][1] == ("sym", "self"))) and not re.search(INJ, str(x[1])):
+                    return False      # the node passes through a function that is not known to keep different nodes apart
+                if x[0] in ("field", "downcast", "index") and x[1] == node:
+                    return False
+                if x[0] == "ref" and x[1][0] == "loc" and x[1][1] == ("sym", "self") and len(x[1][2]) > 1:
+                    return False
+            if any(c for c, o in q.conds if "self" in S.fstr(c)):
+                return False
+        return True
+
     def eq_atom(t, v):
         """-> set of fields compared, {'*'} for the whole node, or None if t is not a self/other equality"""
         l = r = None
@@ -366,6 +393,9 @@ def analyze(ctx, want):
         if l is None:
             return None
         ls, rs_ = S.fstr(l), S.fstr(r)
+        if t[0] == "binop" and {ls.lstrip("&*"), rs_.lstrip("&*")} == {"self", "other"} and wrapper_prints_whole_node():
+            # the printed wrappers are compared (`self.to_string() == other.to_string()`), and the wrapper prints its whole node
+            return {"*"}
         if "other.0" in ls and "self.0" in rs_:
             ls, rs_ = rs_, ls
         if "self.0" not in ls or "other.0" not in rs_ or ls.replace("self.0", "X") != rs_.replace("other.0", "X"):
